@@ -514,9 +514,12 @@ CtxNum(c) == IF c[1] = "I" THEN c[2] ELSE 0
 (* bounds of an iterator node, after configure() *)
 (* configure(): RepeatedCfg overrides at_least / at_most individually; the rest stays static. *)
 (* cfgrep = exactly(n), cfgrepmin = at_least(n), cfgrepmax = at_most(n), n from the context   *)
-CfgOps == {"cfgrep", "cfgrepmin", "cfgrepmax"}
-CfgLo(it, ctx) == IF Op(it) \in {"cfgrep", "cfgrepmin"} THEN CtxNum(ctx) ELSE it[2][3]
-CfgHi(it, ctx) == IF Op(it) \in {"cfgrep", "cfgrepmax"} THEN CtxNum(ctx) ELSE it[2][4]
+(* cfgreptry = try_configure(|cfg, ctx, span| if n <= 2 { Ok(cfg.exactly(n)) } else { Err(user error) }):   *)
+(* the configuration is computed once, in make_iter, before the first item; an Err is a failure there      *)
+CfgOps == {"cfgrep", "cfgrepmin", "cfgrepmax", "cfgreptry"}
+TryCfgFails(it, ctx) == Op(it) = "cfgreptry" /\ CtxNum(ctx) > 2
+CfgLo(it, ctx) == IF Op(it) \in {"cfgrep", "cfgrepmin", "cfgreptry"} THEN CtxNum(ctx) ELSE it[2][3]
+CfgHi(it, ctx) == IF Op(it) \in {"cfgrep", "cfgrepmax", "cfgreptry"} THEN CtxNum(ctx) ELSE it[2][4]
 IterLo(it, ctx) == IF Op(it) \in CfgOps THEN CfgLo(it, ctx) ELSE IF Op(it) = "enum" THEN it[2][3] ELSE it[3]
 IterHi(it, ctx) == IF Op(it) \in CfgOps THEN CfgHi(it, ctx) ELSE IF Op(it) = "enum" THEN it[2][4] ELSE it[4]
 
@@ -612,6 +615,9 @@ AConsumerStart ==
      IN IF Op(f.g) = "run" /\ Op(it) = "rep" /\ it[3] = 0 /\ it[4] = Inf
         THEN \* Repeated::go fast path: loop { save; item in Check; on Err rewind and stop }
              Call([f EXCEPT !.pc = 9], 1, it[2], "C", cur, sec, insp, alt)
+        ELSE IF TryCfgFails(it, f.ctx)
+        THEN \* TryIterConfigure::make_iter: add_alt_err(cursor, the closure's error), fail before any item
+             LET sp == SpanOf(cur, cur) IN Return(ErrRet, cur, sec, insp, AddAltErr(Ety, alt, cur, UserErr(Ety, sp[1], sp[2], "tc")))
         ELSE IF Op(f.g) = "exact" /\ f.g[3] = 0
         THEN Keep(OkRet(MV(f.mode, VA(<<>>))))
         ELSE CallIter([f EXCEPT !.pc = 1], 1, it, IterMode(f), 0, cur, sec, insp, alt)
